@@ -447,36 +447,44 @@ type shape struct {
 	att     int
 	budget  int
 	atomic  bool
+	only    string // "" = once per transport; else only this transport
 }
 
 // configs lists what each tier explores (every shape once per transport).
 func configs(thorough bool) []Cfg {
 	shapes := []shape{
-		{"rmw|-", 2, 0, false}, {"rmw|-", 2, 1, false}, {"rmw|-", 1, 2, false},
-		{"rmw|rmw", 2, 0, false}, {"rmw|rmw", 2, 1, false},
-		{"blind|rmw", 2, 0, false}, {"blind|rmw", 2, 1, false},
-		{"rmw+rmw|rmw", 2, 0, false},
-		{"rmw|-|-", 1, 1, false},
-		{"rmw|rmw|-", 2, 0, true},
+		{"rmw|-", 2, 0, false, ""}, {"rmw|-", 2, 1, false, ""}, {"rmw|-", 1, 2, false, ""},
+		{"rmw|rmw", 2, 0, false, ""}, {"rmw|rmw", 2, 1, false, ""},
+		{"blind|rmw", 2, 0, false, ""}, {"blind|rmw", 2, 1, false, ""},
+		{"rmw+rmw|rmw", 2, 0, false, ""},
+		{"rmw|-|-", 1, 1, false, ""},
+		{"rmw|rmw|-", 2, 0, true, ""},
+		// a proposer that runs two sections against a second proposer and a lagging acceptor: a late
+		// Commit of version k meets an accept for version k+1 (quick: one transport; thorough: all)
+		{"rmw+rmw|rmw|-", 2, 0, true, "direct"},
 	}
 	if thorough {
+		shapes[len(shapes)-1].only = ""
 		shapes = append(shapes,
-			shape{"rmw+rmw|rmw", 2, 1, false},
-			shape{"rmw+blind|rmw+rmw", 2, 0, false},
-			shape{"rmw|rmw", 3, 2, false},
-			shape{"rmw|-|-", 2, 1, false},
-			shape{"rmw|rmw|-", 2, 0, false},
-			shape{"rmw|rmw|-", 2, 1, true},
-			shape{"rmw|rmw|rmw", 2, 0, true},
-			shape{"rmw|blind|rmw", 2, 1, true},
-			shape{"rmw|rmw|-|-", 2, 0, true},
-			shape{"rmw|rmw|-|-", 2, 1, true},
-			shape{"rmw|rmw|rmw|-", 2, 0, true},
+			shape{"rmw+rmw|rmw", 2, 1, false, ""},
+			shape{"rmw+blind|rmw+rmw", 2, 0, false, ""},
+			shape{"rmw|rmw", 3, 2, false, ""},
+			shape{"rmw|-|-", 2, 1, false, ""},
+			shape{"rmw|rmw|-", 2, 0, false, ""},
+			shape{"rmw|rmw|-", 2, 1, true, ""},
+			shape{"rmw|rmw|rmw", 2, 0, true, ""},
+			shape{"rmw|blind|rmw", 2, 1, true, ""},
+			shape{"rmw|rmw|-|-", 2, 0, true, ""},
+			shape{"rmw|rmw|-|-", 2, 1, true, ""},
+			shape{"rmw|rmw|rmw|-", 2, 0, true, ""},
 		)
 	}
 	var out []Cfg
 	for _, sh := range shapes {
 		for _, tr := range []string{"local", "direct", "gob"} {
+			if sh.only != "" && sh.only != tr {
+				continue
+			}
 			out = append(out, Cfg{Transport: tr, Scripts: scripts(sh.scripts), MaxAttempts: sh.att, Budget: sh.budget, Faults: faultsFor(tr, sh.budget), MaxSteps: 400, Atomic: sh.atomic})
 		}
 	}
